@@ -113,6 +113,24 @@ def fd_check_gbasis(ctx, m, e, ename, info, ncells=2):
     return None
 
 
+def warped(rng, m, kind):
+    """make EVERY cell of a quadrilateral / hexahedral mesh non-affine by a global multilinear map with
+    dyadic coefficients (cells stay valid: the perturbation is small against the cell sizes)"""
+    p = m.p.copy()
+    p = p - p.min(axis=1)[:, None]
+    c = rng.choice([1 / 16, 1 / 8, -1 / 16])
+    if kind == "quad":
+        q = p.copy()
+        q[0] = p[0] + c * p[0] * p[1]
+        q[1] = p[1] + (c / 2) * p[0] * p[1]
+    else:
+        q = p.copy()
+        q[0] = p[0] + c * p[1] * p[2]
+        q[1] = p[1] + (c / 2) * p[0] * p[2]
+        q[2] = p[2] + (c / 2) * p[0] * p[1]
+    return type(m)(q, m.t)
+
+
 def ref_fd_check(e, ename, rng):
     """reference-cell derivative of lbasis by central differences (for the untraceable elements)"""
     dim = e.refdom.dim()
@@ -287,15 +305,20 @@ def run(ctx):
     else:
         ctx.broken.append({"kind": "driver-missing"})
     # ---- search on the implementation: mapped derivatives for every element
-    n_mesh = ctx.scale(1, 4)
+    n_mesh = ctx.scale(2, 4)
     for kind in meshes.FIRST_ORDER:
         for name, fac in elements.pool()[kind]:
             if ctx.time_left(0.85) < 0:
                 break
             if "Skeleton" in name:
                 continue        # facet-only functions: not differentiable across the cell
-            for rep in range(n_mesh):
+            reps = n_mesh + (2 if elements.family(fac()) in ("hdiv", "hcurl") else 0)
+            for rep in range(reps):
                 m, info = meshes.gen_first_order(rng, kind, holes=False)
+                if kind in ("quad", "hex") and rep % 2 == 1 and elements.family(fac()) != "global":
+                    m = warped(rng, m, kind)          # general (non-affine) cells: Jacobian varies inside the cell
+                    info = dict(info, gen="warped")
+                    ctx.count("mapped:warped-" + kind)
                 e = fac()
                 ctx.count("mapped:" + kind)
                 descr = {"element": name, "mesh": meshes.mesh_descr(m)}
